@@ -529,7 +529,9 @@ def st_sep(first=False, last=False, multiline=True, comments=True):
     if multiline:
         pieces += [st.sampled_from(["\n", "\n\n", " \n", "\n  ", "  \n\n   ", "\n\t"])]
     if comments:
-        pieces += [st.sampled_from([" # note\n", "#c\n ", " /* x */ ", "/**/", " /* multi\n line */ ", "/* a\n\n b */\n", "/* 1\n 2\n3 */"])
+        pieces += [st.sampled_from([" # note\n", "#c\n ", " /* x */ ", "/**/", " /* multi\n line */ ", "/* a\n\n b */\n", "/* 1\n 2\n3 */",
+                                    # comments whose text holds characters that str.splitlines() treats as line ends
+                                    " # hidden \x0c a 1 ;\n", "#x\u2028b + 2\n", " # k\x85 ( cc\n", "/* p \x1c q \r r */", "# \r foo\n"])
                    if multiline else st.sampled_from([" /* x */ ", "/**/"])]
     return st.lists(st.one_of(*pieces), min_size=0, max_size=3).map("".join)
 
